@@ -29,7 +29,7 @@ genvars == <<st, cnt, case>>
 Pick(t) == t[RandomElement(1..Len(t))]
 FailDist == <<FALSE, FALSE, FALSE, TRUE>>
 AcceptDist == <<TRUE, TRUE, FALSE>>
-ValDist == <<0, 0, 0, 1, 1, 2>>
+ValDist == <<0, 0, 0, 0, 1, 1, 2, 3, 3, 4, 4>>
 BadDist == <<FALSE, FALSE, FALSE, FALSE, FALSE, TRUE>>
 
 RandResponder(m) ==
@@ -40,20 +40,20 @@ RandResponder(m) ==
 \* a case of the adversarial family; topo is a sequence, entry m + 1 describes node m
 \* (the parameter keeps TLC from caching the definitions as constants)
 RandAdvCase(c0) ==
-    [fam |-> "adv", op |-> RandomElement(Ops), n |-> N, min |-> RandomElement(Mins),
+    [fam |-> "adv", op |-> RandomElement(Ops), n |-> N, min |-> RandomElement(Mins), vmode |-> RandomElement(0..3),
      init |-> [i \in 1..RandomElement(0..MaxInitLen) |-> RandomElement(Nodes)],
      topo |-> [k \in 1..N |-> RandResponder(k - 1)]]
 
 \* a case of the honest family: the replayer builds the network from these numbers
 RandHonestCase(c0) ==
-    [fam |-> "honest", op |-> RandomElement(Ops), min |-> RandomElement(Mins),
+    [fam |-> "honest", op |-> RandomElement(Ops), min |-> RandomElement(Mins), vmode |-> RandomElement(0..3),
      size |-> RandomElement(HonestSizes), peers |-> RandomElement({2, 3, 5, 8, 10, 20, 256}),
      data |-> RandomElement({1, 2, 4}), dead |-> RandomElement(0..3), advn |-> RandomElement({0, 0, 1, 3}),
      ninit |-> RandomElement(0..3), dup |-> Pick(<<FALSE, FALSE, TRUE>>),
      holders |-> RandomElement(0..3), poison |-> RandomElement(0..1), prefill |-> RandomElement(0..6),
      exists |-> Pick(<<TRUE, TRUE, FALSE>>), seed |-> RandomElement(1..1000000)]
 
-GenInit == st = Start("findnode", <<>>, 0) /\ cnt = 0 /\ case = <<>>
+GenInit == st = Start("findnode", <<>>, 0, 0) /\ cnt = 0 /\ case = <<>>
 GenNext == /\ \E c \in {IF RandomElement(1..HonestEvery) = 1 THEN RandHonestCase(cnt) ELSE RandAdvCase(cnt)} :
                 /\ PrintT(ToJson(<<"CASE", c>>))
                 /\ case' = c
@@ -68,15 +68,15 @@ SmallResponders(op, m) ==
     {[id |-> m, reply |-> <<>>, fail |-> TRUE, accept |-> FALSE, val |-> 0, bad |-> FALSE]} \cup
     {[id |-> m, reply |-> r, fail |-> FALSE, accept |-> a, val |-> v, bad |-> FALSE] :
         r \in EffReplies(m), a \in (IF op = "put" THEN BOOLEAN ELSE {FALSE}),
-        v \in (IF op = "get" THEN 0..2 ELSE {0})}
+        v \in (IF op = "get" THEN ValClasses ELSE {0})}
 RECURSIVE Topos(_, _)
 Topos(op, k) == IF k = 0 THEN {<<>>}
                 ELSE {Append(t, r) : t \in Topos(op, k - 1), r \in SmallResponders(op, k - 1)}
 SmallInit == /\ cnt = 0
-             /\ \E op \in Ops, init \in Initials :
-                  \E min \in (IF op = "put" THEN Mins ELSE {0}) :
-                     /\ st = Start(op, init, min)
-                     /\ case \in {[fam |-> "adv", op |-> op, n |-> N, min |-> min, init |-> init, topo |-> t] :
+             /\ \E op \in Ops : \E init \in (IF op = "get" THEN SmallGetInitials ELSE Initials) :
+                  \E min \in (IF op = "put" THEN Mins ELSE {0}), vm \in (IF op = "get" THEN VModes ELSE {0}) :
+                     /\ st = Start(op, init, min, vm)
+                     /\ case \in {[fam |-> "adv", op |-> op, n |-> N, min |-> min, vmode |-> vm, init |-> init, topo |-> t] :
                                     t \in Topos(op, N)}
 SmallNext == FALSE /\ UNCHANGED genvars
 SmallSpec == SmallInit /\ [][SmallNext]_genvars
